@@ -128,4 +128,19 @@ def assetVariablePosting (src dst asset numTok : List Char) : Except String RawP
   let a ← newValueAsset asset
   pure { source := s, destination := d, asset := a, amount := some (digitsToNat numTok) }
 
+/-! ### import (internal/controller/ledger/controller_default.go, `Import` / `importLog`) -/
+
+/-- Replaying the NEW_TRANSACTION logs of an export stream: each log is committed in
+    its own SQL transaction; `validate` says whether `importLog` runs
+    `Postings.Validate` on the log's postings first (it does not in the code as it
+    is: `Generated.Grammar.importValidatesCreated`). Returns the transactions
+    committed and whether the import stopped with an error. -/
+def importTxs (validate : Bool) : List (List RawPosting) → List (List RawPosting) × Bool
+  | [] => ([], false)
+  | ps :: rest =>
+    if validate && (postingsValidate ps 0).isSome then ([], true)
+    else
+      let r := importTxs validate rest
+      (ps :: r.1, r.2)
+
 end Ledger.Chart
